@@ -26,7 +26,8 @@ from ..ref.cascade import Cascade
 ID = "C12"
 LEVEL = "model_checking"
 NAN = float("nan")
-VALUES = [NAN, 0.25, 0.75, 2.0, -1.0]
+INF = float("inf")
+VALUES = [NAN, 0.25, 0.75, 2.0, -1.0, INF]
 DEFAULTS = [NAN, 0.5, 3.0]
 SETTINGS = [(lp, d, lr) for lp in (False, True) for d in DEFAULTS for lr in (False, True)]
 
@@ -84,7 +85,10 @@ def ops_b(max_len: int):
 
 
 def plan(tier: str, seed: int):
-    return [(driver, s) for s in range(len(SETTINGS)) for driver in ("A", "B")]
+    shards = [(driver, s, part) for s in range(len(SETTINGS)) for driver in ("A", "B") for part in range(PARTS)]
+    if tier == "thorough":
+        shards += [("T", s, 0) for s in range(len(SETTINGS))]  # TLC model + conformance replay of its state graph
+    return shards
 
 
 # ---------------------------------------------------------------------------------------------------------------------
@@ -95,18 +99,18 @@ def build_a(setting):
     return var
 
 
-INPUT_OF = {0.25: 0.25, 0.75: 1.25, 2.0: 2.25, -1.0: 3.25}
+INPUT_OF = {0.25: 0.25, 0.75: 1.25, 2.0: 2.25, -1.0: 3.25, INF: 4.25}
 
 
 def build_b(setting):
     lp, d, lr = setting
-    consts = [0.25, 0.75, 2.0, -1.0]
+    consts = [0.25, 0.75, 2.0, -1.0, INF]
     iv = fl.InputVariable("i", minimum=0.0, maximum=10.0,
-                          terms=[fl.Rectangle(f"b{k}", float(k), k + 0.5) for k in range(4)])
+                          terms=[fl.Rectangle(f"b{k}", float(k), k + 0.5) for k in range(5)])
     ov = fl.OutputVariable("o", minimum=0.0, maximum=1.0, lock_range=lr, lock_previous=lp, default_value=d,
-                           defuzzifier=fl.WeightedAverage(), terms=[fl.Constant(f"c{k}", consts[k]) for k in range(4)])
+                           defuzzifier=fl.WeightedAverage(), terms=[fl.Constant(f"c{k}", consts[k]) for k in range(5)])
     rb = fl.RuleBlock("rb", activation=fl.General(),
-                      rules=[fl.Rule.create(f"if i is b{k} then o is c{k}") for k in range(4)])
+                      rules=[fl.Rule.create(f"if i is b{k} then o is c{k}") for k in range(5)])
     return fl.Engine("e", input_variables=[iv], output_variables=[ov], rule_blocks=[rb])
 
 
@@ -197,7 +201,45 @@ def rows_equal(a, b) -> bool:
     return len(a) == len(b) and all(same(x, y) for x, y in zip(a, b))
 
 
-def explore(acc: Acc, driver: str, setting, max_len: int, only_history=None) -> None:
+PARTS = 4
+
+
+def model_states(driver: str, setting, max_len: int):
+    """Reachable states of the REFERENCE MODEL (breadth-first, to closure) with a shortest history for each.  The real
+    object is then driven through every (state, operation) pair; as long as it agrees with the model on every
+    transition its reachable state space is the model's, and the first disagreement is reported as a violation."""
+    lp, d, lr = setting
+    ops = ops_a(max_len) if driver == "A" else ops_b(max_len)
+
+    def run(history):
+        m = Cascade(lp, d, lr, 0.0, 1.0)
+        nf = 0
+        for op in history:
+            kind = op[0]
+            if kind in ("defuzz", "process"):
+                m.defuzzify(list(op[2]))
+                if kind == "process":
+                    nf = 1
+            elif kind in ("clear", "restart"):
+                m.clear()
+                nf = 0
+            elif kind == "activate":
+                nf = 1
+        return m.key() + (nf,)
+
+    seen = {run(()): ()}
+    frontier = collections.deque([()])
+    while frontier:
+        hist = frontier.popleft()
+        for op in ops:
+            k = run(hist + (op,))
+            if k not in seen:
+                seen[k] = hist + (op,)
+                frontier.append(hist + (op,))
+    return list(seen.values()), ops
+
+
+def explore(acc: Acc, driver: str, setting, max_len: int, only_history=None, part: int = 0, parts: int = 1) -> None:
     lp, d, lr = setting
     build = build_a if driver == "A" else build_b
     apply = apply_a if driver == "A" else apply_b
@@ -264,32 +306,126 @@ def explore(acc: Acc, driver: str, setting, max_len: int, only_history=None) -> 
         step(history, op)
         return
 
-    obj, _ = rebuild(())
-    r0, p0 = observe(var_of(obj))
-    start = digest(r0, p0, 0)
-    seen = {start: ()}
-    frontier = collections.deque([()])
-    depth_max = 0
-    while frontier:
-        hist = frontier.popleft()
-        depth_max = max(depth_max, len(hist))
+    histories, _ = model_states(driver, setting, max_len)
+    k = 0
+    for hist in histories:
         for op in ops:
-            dg = step(hist, op)
-            if dg is not None and dg not in seen:
-                seen[dg] = hist + (op,)
-                frontier.append(hist + (op,))
-    acc.states += len(seen)
-    acc.extra[f"max_depth_{driver}"] = max(acc.extra.get(f"max_depth_{driver}", 0), depth_max)
-    if setting == SETTINGS[7]:
-        longest = max(seen.values(), key=len)
-        acc.sample({"driver": driver, "setting": name, "history": [list(o) for o in longest], "reached": list(map(str, seen))[-1]}, 1)
+            k += 1
+            if k % parts != part:
+                continue
+            step(hist, op)
+    if part == 0:
+        acc.states += len(histories)
+        acc.extra[f"max_depth_{driver}"] = max(acc.extra.get(f"max_depth_{driver}", 0), max(len(h) for h in histories))
+    if setting == SETTINGS[7] and part == 0:
+        longest = max(histories, key=len)
+        acc.sample({"driver": driver, "setting": name, "history": [list(o) for o in longest]}, 1)
+
+
+# ---------------------------------------------------------------------------------------------------------------------
+# TLC add-on: the TLA+ model vmc/tla/Cascade.tla is checked by TLC and every edge of its dumped state graph is replayed
+# on the real OutputVariable (conformance of the model to the implementation, all behaviours, not only counterexamples)
+# ---------------------------------------------------------------------------------------------------------------------
+SYMBOL = {"nan": NAN, "in1": 0.25, "in2": 0.75, "above": 2.0, "below": -1.0, "lo": 0.0, "hi": 1.0, "defin": 0.5, "defout": 3.0}
+TLA_JAR = "/opt/veriftools/tla/tla2tools.jar:/opt/veriftools/tla/CommunityModules-deps.jar"
+
+
+def run_tlc(setting):
+    import os
+    import re
+    import shutil
+    import subprocess
+    import tempfile
+
+    lp, d, lr = setting
+    kind = "none" if d != d else ("in" if d == 0.5 else "out")
+    here = os.path.join(os.path.dirname(os.path.dirname(os.path.abspath(__file__))), "tla")
+    work = tempfile.mkdtemp(prefix="vmc-tlc-")
+    try:
+        shutil.copy(os.path.join(here, "Cascade.tla"), work)
+        with open(os.path.join(work, "Cascade.cfg"), "w") as fh:
+            fh.write(f'CONSTANTS LockPrev = {"TRUE" if lp else "FALSE"} DefaultKind = "{kind}" LockRange = {"TRUE" if lr else "FALSE"}\n'
+                     "INIT Init\nNEXT Next\nINVARIANTS InRange NoNaNWithDefault LockedNeverLosesValue\nPROPERTIES PreviousIsOldValue\n")
+        cmd = ["java", "-Xmx512m", "-XX:+UseSerialGC", "-cp", TLA_JAR, "tlc2.TLC", "-workers", "1", "-noGenerateSpecTE",
+               "-metadir", os.path.join(work, "meta"), "-dump", "dot,actionlabels", os.path.join(work, "graph"),
+               "-config", "Cascade.cfg", "Cascade.tla"]
+        r = subprocess.run(cmd, cwd=work, capture_output=True, text=True, timeout=600)
+        out = r.stdout + r.stderr
+        if "No error has been found" not in out:
+            return None, out[-2000:]
+        dot = open(os.path.join(work, "graph.dot")).read()
+    finally:
+        shutil.rmtree(work, ignore_errors=True)
+    nodes, edges = {}, []
+    for m in re.finditer(r'^(-?\d+) \[label="([^"\\]*(?:\\.[^"\\]*)*)"', dot, re.M):
+        fields = dict(re.findall(r'(\w+) = \\"(\w+)\\"', m.group(2)))
+        nodes[m.group(1)] = (fields["value"], fields["previous"], fields["op"])
+    for m in re.finditer(r'^(-?\d+) -> (-?\d+) \[label="([^"\\]*(?:\\.[^"\\]*)*)"', dot, re.M):
+        edges.append((m.group(1), m.group(2), m.group(3)))
+    stats = re.search(r"(\d+) states generated, (\d+) distinct states found", out)
+    return (nodes, edges, int(stats.group(1)), int(stats.group(2))), out[-500:]
+
+
+def tlc_conformance(acc: Acc, setting) -> None:
+    name = {"lock_previous": setting[0], "default": setting[1], "lock_range": setting[2]}
+    res, log = run_tlc(setting)
+    case0 = {"driver": "T", "setting": name, "history": [], "op": ["tlc"]}
+    if res is None:
+        acc.violate("tlc-model-error", {}, case0, "No error has been found", log[-400:], "TLC reports an error in the cascade model (or could not run)")
+        return
+    nodes, edges, generated, distinct = res
+    acc.extra["tlc_states_generated"] += generated
+    acc.extra["tlc_distinct_states"] += distinct
+    acc.states += len(nodes)
+    # shortest operation path from the initial state to every node
+    init = next(k for k, v in nodes.items() if v[2] == "init")
+    succ = collections.defaultdict(list)
+    for a, b, _ in edges:
+        succ[a].append(b)
+    path = {init: ()}
+    queue = collections.deque([init])
+    while queue:
+        k = queue.popleft()
+        for b in succ[k]:
+            if b not in path:
+                path[b] = path[k] + (nodes[b][2],)
+                queue.append(b)
+
+    def to_op(symbol):
+        if symbol == "fail":
+            return ("fail", "RuntimeError")
+        if symbol == "clear":
+            return ("clear",)
+        return ("defuzz", "np" if symbol in ("in1", "nan") else "0d", [SYMBOL[symbol]])
+
+    for a, b, label in edges:
+        var = build_a(setting)
+        for sym in path[a]:
+            apply_a(var, None, to_op(sym))
+        op = to_op(nodes[b][2])
+        apply_a(var, None, op)
+        rows, prev = observe(var)
+        want_v, want_p = SYMBOL[nodes[b][0]], SYMBOL[nodes[b][1]]
+        acc.transitions += 1
+        acc.traces += 1
+        acc.extra["tlc_edges_replayed"] += 1
+        acc.case(("T", setting, a, b), nontrivial=nodes[b][2] == "nan")
+        case = {"driver": "T", "setting": name, "history": [list(to_op(s)) for s in path[a]], "op": list(op), "tlc_edge": label}
+        if not (len(rows) == 1 and same(rows[0], want_v) and same(prev, want_p)):
+            acc.violate("tlc-conformance", {"field": "value" if not (len(rows) == 1 and same(rows[0], want_v)) else "previous_value"}, case,
+                        {"value": want_v, "previous": want_p}, {"value": rows, "previous": prev},
+                        f"{name}: TLC edge {label} from {nodes[a][:2]} leads to {nodes[b][:2]}, the implementation to value={rows} previous={prev}")
 
 
 def run_shard(tier: str, seed: int, shard):
-    driver, s = shard
+    driver, s, part = shard
     acc = Acc(ID)
     max_len = 2 if tier == "quick" else 3
-    explore(acc, driver, SETTINGS[s], max_len)
+    if driver == "T":
+        acc.guard({"driver": "T", "setting": list(SETTINGS[s]), "history": [], "op": ["tlc"]}, tlc_conformance, acc, SETTINGS[s])
+        acc.cls("tlc_models_checked")
+    else:
+        explore(acc, driver, SETTINGS[s], max_len, part=part, parts=PARTS)
     return acc.result()
 
 
@@ -299,16 +435,21 @@ def summarize(tier: str, seed: int, merged: dict) -> dict:
         if not merged["classes"].get(cls):
             vac.append(f"outcome class {cls} is empty")
     max_len = 2 if tier == "quick" else 3
+    if tier == "thorough" and merged["classes"].get("tlc_models_checked", 0) != len(SETTINGS):
+        vac.append("the TLC add-on did not check all 12 settings")
     return {
         "rule": (
             f"BFS to closure of the reachable states of OutputVariable under 12 settings; operations: defuzzify with every "
-            f"batch of 1..{max_len} values over {['nan', 0.25, 0.75, 2.0, -1.0]} (result shapes: 0-d array, numpy scalar, "
+            f"batch of 1..{max_len} values over {['nan', 0.25, 0.75, 2.0, -1.0, 'inf']} (result shapes: 0-d array, numpy scalar, "
             "1-element array, 1-D array), defuzzifier failure (2 exception classes), clear(), defuzzify while disabled, add "
             "an activation; driver B: Engine.process (float / array inputs) and restart on a WeightedAverage engine. "
             "Because the search runs to closure, histories of every length are covered for batches up to the stated size. "
             "states = distinct (model, real) states; transitions = operations executed on a fresh real object after "
             "replaying the shortest history of the source state; non-trivial = the call contains a NaN row and "
             "lock-previous or a default is set"
+            + (". Thorough tier: vmc/tla/Cascade.tla is model-checked by TLC for each setting (invariants InRange, "
+               "NoNaNWithDefault, LockedNeverLosesValue, action property PreviousIsOldValue) and every edge of its dumped state "
+               "graph is replayed on the real OutputVariable (counters tlc_distinct_states, tlc_edges_replayed)" if tier == "thorough" else "")
         ),
         "exhaustive": True,
         "vacuity_errors": vac,
@@ -331,5 +472,18 @@ def replay(case: dict):
     setting = (st["lock_previous"], float(_unjson(st["default"])), st["lock_range"])
     history = tuple(tuple(_unjson(o)) for o in case["history"])
     op = tuple(_unjson(case["op"]))
+    if case["driver"] == "T":
+        var = build_a(setting)
+        for h in history:
+            apply_a(var, None, h)
+        apply_a(var, None, op)
+        model = Cascade(setting[0], setting[1], setting[2], 0.0, 1.0)
+        scratch = build_a(setting)
+        for h in history + (op,):
+            apply_a(scratch, model, h)
+        rows, prev = observe(var)
+        if not (rows_equal(rows, model.value) and same(prev, model.previous)):
+            acc.violate("tlc-conformance", {}, case, [model.value, model.previous], [rows, prev], "replayed TLC edge differs from the cascade")
+        return acc.violations
     explore(acc, case["driver"], setting, 1, only_history=(history, op))
     return acc.violations
